@@ -218,11 +218,15 @@ class SArr(np.ndarray):
         return np.dot(self, o)
 
 
-def _fix_index(idx):
+def _fix_index(idx, in_tuple=False):
     if isinstance(idx, np.ndarray) and idx.dtype == object and idx.size and all(isinstance(b, (bool, np.bool_)) for b in idx.flat):
         return idx.view(np.ndarray).astype(bool)
+    if in_tuple and isinstance(idx, np.ndarray) and idx.dtype == object and idx.size and any(isinstance(b, SB) for b in idx.flat):
+        # a symbolic boolean mask as ONE component of a multi-dimensional index (a[mask, j]): the selection has a symbolic length, so the
+        # mask is made concrete by deciding its elements (forks; decisions about the same condition are cached on the path)
+        return np.array([bool(b) for b in idx.view(np.ndarray).flat]).reshape(idx.shape)
     if isinstance(idx, tuple):
-        return tuple(_fix_index(i) for i in idx)
+        return tuple(_fix_index(i, True) for i in idx)
     return idx
 
 
